@@ -1959,8 +1959,10 @@ pub fn install_hooks() {
 
 /// Runs one case. A controlled stop (`VERIF_STOP` panic raised by a probe) ends the case early with the
 /// violations recorded so far; any other panic is a harness bug and is propagated.
-pub fn run_case(case: &Case, trace: bool, alloc_on: bool) -> CaseResult {
-    match catch_unwind(AssertUnwindSafe(|| run_case_inner(case, trace, alloc_on))) {
+/// `focus`: bit mask of the properties under check - the case is abandoned (subject leaked) as soon as one of
+/// them is violated, because a crate in a broken state may never return from a later call (e.g. its drop).
+pub fn run_case(case: &Case, trace: bool, alloc_on: bool, focus: u32) -> CaseResult {
+    match catch_unwind(AssertUnwindSafe(|| run_case_inner(case, trace, alloc_on, focus))) {
         Ok(r) => r,
         Err(e) => {
             let msg = panic_msg(&e);
@@ -1986,7 +1988,7 @@ pub fn run_case(case: &Case, trace: bool, alloc_on: bool) -> CaseResult {
     }
 }
 
-fn run_case_inner(case: &Case, trace: bool, alloc_on: bool) -> CaseResult {
+fn run_case_inner(case: &Case, trace: bool, alloc_on: bool, focus: u32) -> CaseResult {
     alloc::release_quarantine();
     let _ = alloc::take_overrun();
     reset_world(trace);
@@ -2092,6 +2094,10 @@ fn run_case_inner(case: &Case, trace: bool, alloc_on: bool) -> CaseResult {
         run.apply(op);
         if !run.abort {
             run.observe();
+        }
+        if !run.abort && w(|x| x.violations.iter().any(|v| v.props & focus != 0)) {
+            w(|x| x.ev(|| "-- a property under check is violated: the case is abandoned here".to_string()));
+            run.abandon();
         }
     }
     run.epilogue();
